@@ -80,6 +80,13 @@ class Exec(ExprMixin, CallMixin):
                     self.ctx.oblige(f"cut:{self.contract.qualname}:{aname}", t, kind="post", line=s.lineno)
                 self.ctx.cover(f"cover:{self.contract.qualname}:cut", line=s.lineno)
                 raise PathEnd()
+        if cut and cut.get("before_stmt") and re.fullmatch(cut["before_stmt"], ast.unparse(s), re.S):
+            # cut point in front of an arbitrary statement (regex on its source text)
+            for aname, asrc in cut["asserts"].items():
+                t = self.truth(self._spec_eval(asrc))
+                self.ctx.oblige(f"cut:{self.contract.qualname}:{aname}", t, kind="post", line=s.lineno)
+            self.ctx.cover(f"cover:{self.contract.qualname}:cut", line=s.lineno)
+            raise PathEnd()
         if self.reg.dropped_stmts and isinstance(s, (ast.Expr, ast.Assign, ast.AugAssign, ast.If)):
             src = ast.unparse(s)
             if any(re.fullmatch(pat, src, re.S) for pat in self.reg.dropped_stmts):
@@ -526,6 +533,17 @@ class Exec(ExprMixin, CallMixin):
             finally:
                 self.spec_mode = sm
                 self.frames.pop()
+            # facts relating the function-entry state to the state after the interference, proved stable under the rely at every
+            # yield (an obligation each time) and from then on available to the solver: the transitive summary of all rely steps so far
+            for nm, src in (rely.get("stable") or {}).items():
+                # evaluated over the verified function's own parameters (a yield inside a callee's contract has the callee's scope)
+                saved_l = c.locals
+                c.locals = {k: SV(v.ty, v.t) for k, v in self.params_entry.items()}
+                try:
+                    t = self.truth(self._spec_eval(src))
+                finally:
+                    c.locals = saved_l
+                c.oblige(f"stable:{self.contract.qualname}:{nm}@{what}", t, kind="assert", line=getattr(node, "lineno", None))
         if self.timeout_depth > 0 and self.catchable("TimeoutError"):
             if self.ctx.choose(2, f"timeout@{getattr(node, 'lineno', '?')}") == 1:
                 raise PyRaise(SExc("TimeoutError"))
@@ -831,17 +849,30 @@ class Exec(ExprMixin, CallMixin):
                         note_write(n.func.value)
                     # defaultdict reads insert: handled as writes of the dict
                     d = dotted(n.func)
-                    ct = None
+                    cts = []
                     if isinstance(n.func, ast.Attribute) and not (n.func.attr in MUTATORS and not (isinstance(n.func.value, ast.Attribute) and n.func.value.attr == "mailbox")):
                         # method with contract?  (container mutators like .add/.remove are handled above unless the receiver is the MH folder)
+                        # The receiver's class is not known here: EVERY contract of that method name contributes (an over-approximation).
                         for q, cc in self.reg.contracts.items():
                             if cc.fname == n.func.attr and (cc.cls is not None or d == q):
-                                ct = cc
-                                break
+                                cts.append(cc)
+                        # ... unless the receiver's class is evident from the class tables (self, self.<field>, a typed local)
+                        rc = self._static_class_of(n.func.value)
+                        if rc is not None:
+                            exact = [cc for cc in cts if cc.cls == rc]
+                            if exact:
+                                cts = exact
                     elif isinstance(n.func, ast.Name) and n.func.id in self.reg.contracts:
-                        ct = self.reg.contracts[n.func.id]
-                    if ct is not None:
-                        on_self = isinstance(n.func, ast.Attribute) and isinstance(n.func.value, ast.Name) and n.func.value.id == "self"
+                        cts.append(self.reg.contracts[n.func.id])
+                    # calls resolved through the dispatch table
+                    src_call = ast.unparse(n)
+                    dispatched = set()
+                    for pat, q in self.reg.dynamic_dispatch.items():
+                        if re.fullmatch(pat, src_call, re.S):
+                            cts.append(self.reg.contracts[q])
+                            dispatched.add(q)  # a dispatched call is applied with the verified function's own `self` as receiver
+                    for ct in cts:
+                        on_self = (isinstance(n.func, ast.Attribute) and isinstance(n.func.value, ast.Name) and n.func.value.id == "self") or ct.qualname in dispatched
                         if ct.inline and depth < 4:
                             try:
                                 fi = get_function(ct.path, ct.qualname)
@@ -857,8 +888,12 @@ class Exec(ExprMixin, CallMixin):
                             tgt, f = m.split(".", 1)
                             f = f.split("[")[0]
                             if tgt == "self" and ct.cls:
-                                key = f"{ct.cls}.{f}"
-                                (fields if on_self else allfields).add(key)
+                                # the class of `self` is what the contract declares for that parameter (dispatch contracts are
+                                # named after the library they stand for, not after the class of their receiver)
+                                sty = ct.params.get("self")
+                                scls = sty.cls if isinstance(sty, TRef) else ct.cls
+                                key = f"{scls}.{f}"
+                                (fields if on_self and scls == self.cur_contract.cls else allfields).add(key)
                             elif tgt == "*":
                                 for cls, cd in self.reg.classes.items():
                                     if f in cd.fields:
@@ -881,6 +916,67 @@ class Exec(ExprMixin, CallMixin):
                                 note_write(n)
         return names, fields, allfields
 
+    def _static_type_of(self, e, depth=0):
+        """Type of an expression when the class tables / contract declarations make it evident, else None (purely syntactic)."""
+        if depth > 6:
+            return None
+        if isinstance(e, ast.Name):
+            if e.id == "self" and self.cur_contract.cls in self.reg.classes:
+                return TRef(self.cur_contract.cls)
+            lv = self.ctx.locals.get(e.id)
+            if lv is not None and lv.ty is not None:
+                return lv.ty
+            ty = self.cur_contract.locals_.get(e.id) or self.cur_contract.params.get(e.id)
+            if ty is not None:
+                return ty
+            # a loop variable: element type of what it iterates over
+            for n in ast.walk(self.cur_finfo.node):
+                if isinstance(n, (ast.For, ast.AsyncFor, ast.comprehension)):
+                    it = self._static_type_of(n.iter, depth + 1)
+                    if it is None:
+                        continue
+                    elem = it.elem if isinstance(it, (TList, TSet)) else it.key if isinstance(it, TDict) else None
+                    if isinstance(n.target, ast.Name) and n.target.id == e.id:
+                        return elem
+                    if isinstance(n.target, ast.Tuple) and isinstance(elem, TTuple):
+                        for k, t in enumerate(n.target.elts):
+                            if isinstance(t, ast.Name) and t.id == e.id and k < len(elem.elems):
+                                return elem.elems[k]
+            return None
+        if isinstance(e, ast.Attribute):
+            base = self._static_type_of(e.value, depth + 1)
+            if isinstance(base, TOpt):
+                base = base.inner
+            if isinstance(base, TRef) and base.cls in self.reg.classes:
+                return self.reg.classes[base.cls].fields.get(e.attr)
+            return None
+        if isinstance(e, ast.Call) and isinstance(e.func, ast.Attribute) and e.func.attr in ("values", "items", "keys"):
+            d = self._static_type_of(e.func.value, depth + 1)
+            if isinstance(d, TDict):
+                return TList(d.val) if e.func.attr == "values" else TList(d.key) if e.func.attr == "keys" else TList(TTuple([d.key, d.val]))
+            return None
+        if isinstance(e, ast.Call) and isinstance(e.func, ast.Name) and e.func.id in ("list", "sorted", "set", "tuple") and e.args:
+            return self._static_type_of(e.args[0], depth + 1)
+        if isinstance(e, ast.Subscript):
+            c = self._static_type_of(e.value, depth + 1)
+            if isinstance(c, TDict):
+                return c.val
+            if isinstance(c, TList) and not isinstance(e.slice, ast.Slice):
+                return c.elem
+            return c if isinstance(c, TList) else None
+        return None
+
+    def _static_class_of(self, e):
+        """Class name of a receiver expression when it is evident, else None."""
+        ty = self._static_type_of(e)
+        if isinstance(ty, TOpt):
+            ty = ty.inner
+        if isinstance(ty, TRef):
+            return ty.cls
+        if isinstance(ty, TOpaque):
+            return ty.name.split(":", 1)[-1] if ":" in ty.name else ty.name
+        return None
+
     # ------------------------------------------------------------------
     # contract application
     def bind_args(self, ct: Contract, fi: FuncInfo | None, self_sv, node: ast.Call) -> dict[str, SV]:
@@ -900,6 +996,10 @@ class Exec(ExprMixin, CallMixin):
                 packed = self.ctx.locals.pop("__pack")
             args = [packed]
             kws = self.kw_of(node)
+        elif ct.ghost.get("skip_args"):
+            # the call's source text is pinned by the dispatch regex; its arguments (e.g. a tuple with a starred element) are not
+            # evaluated, the contract reads the caller's locals named in ghost.bind_locals instead
+            args, kws = [], {}
         else:
             args = self.args_of(node)
             kws = self.kw_of(node)
@@ -932,6 +1032,13 @@ class Exec(ExprMixin, CallMixin):
                         bound[p] = self.eval(defaults[p])
                     finally:
                         self.spec_mode = sm
+        for p, lname in (ct.ghost.get("bind_locals") or {}).items():
+            lv = self.ctx.locals.get(lname)
+            if lv is None:
+                raise Unsupported(f"{ct.qualname}: caller has no local {lname!r}", node)
+            if lv.place is not None and lv.place[0] != "local":
+                lv = self.read_place(lv.place)
+            bound[p] = SV(lv.ty, lv.t, None, lv.py)
         for p in pnames:
             if p not in bound:
                 raise Unsupported(f"argument {p} of {ct.qualname} not supplied", node)
